@@ -25,7 +25,8 @@ def renderCell (t : Nat) (c : List Action) : String :=
 
 def fixesOf (s : String) : Fixes :=
   match s.toList with
-  | [a, b, c] => ⟨a == '1', b == '1', c == '1'⟩
+  | [a, b, c] =>
+    if [a, b, c].all (fun x => x == '0' || x == '1') then ⟨a == '1', b == '1', c == '1'⟩ else Fixes.current
   | _ => Fixes.current
 
 /-- cells of one state: either the rendered non-empty cells or the first panic -/
